@@ -113,7 +113,7 @@ def optOf : OptSrc → Except Err Opt
       if d.frac.all (· == '0') then
         let n := (stripZeros d.int).foldl (fun a c => a * 10 + (c.toNat - 48)) 0
         .ok (if n == 0 then .noOpt else .nt n)
-      else .ok (.other t)
+      else .ok (.other (String.ofList d.fmtG))
 
 def kinOf (pfx : String) (low high : Option String) (ins outs : List String) : Except Err KinD := do
   let f := fun (o : Option String) (dflt : String) => match o with
